@@ -12,6 +12,7 @@ from ..harness import Query
 
 ID = 'C02'
 DEFAULT_FEATURES = True   # fast-check data is part of the graph state
+BUILD_PROBES = True   # evidence: the states behind the recorded findings are produced by the real builder
 ASSUMPTIONS = [
     'graph state satisfies the representation invariant of DESIGN.md section 3 (module specifier = key, no self-redirect, distinct dependency texts, code-only graphs carry no type data)',
     'CheckJsOption::Custom is a pure predicate; logging is disabled; Url is an atom with a symbolic scheme; specifier text only matters through key equality and the attribute "lower-cased text starts with file://"',
